@@ -76,6 +76,38 @@ def optSymJ : Option Sym → Json
   | none => Json.null
   | some s => symJ s
 
+def getOptRat (j : Json) (k : String) : Except String (Option Rat) :=
+  match j.getObjVal? k with
+  | .ok .null => .ok none
+  | .ok (.str s) => match parseRat? s with
+    | some q => .ok (some q)
+    | none => .error s!"field {k} is not a rational"
+  | _ => .error s!"missing field {k}"
+
+/-- the category of a `valueless`/`regcopy` line, registered on the named database -/
+def registered (j : Json) : Except String (Sym × Except ErrKind Db) := do
+  let db ← dbOf (← getStr j "db")
+  let name ← getSym j "name"
+  pure (name, db.addCategoryFull name (← getSym j "qt") (← getOptSyms j "valid") (← getOptSym j "default")
+    (← getSym j "caption") (← getBool j "override") (← getOptRat j "dv") (← getOptRat j "mn")
+    (← getOptRat j "mx") (← getBool j "minx") (← getBool j "maxx"))
+
+/-- the value read in another unit afterwards (`then_to`), with its magnitude -/
+def thenJ (db : Db) (q : Simple) (x : Rat) : Option Sym → List (String × Json)
+  | none => []
+  | some t =>
+    match db.getValue q x t with
+    | .ok y => [("then", Json.mkObj [("ok", ratJ y), ("M", ratJ (magConv db q.cat q.unit t x y))])]
+    | .error e => [("then", errJ e)]
+
+def thenListJ (db : Db) (q : Simple) (xs : List Rat) : Option Sym → List (String × Json)
+  | none => []
+  | some t =>
+    match db.getValues q xs t with
+    | .ok ys => [("then", Json.mkObj [("ok", Json.arr (ys.map ratJ).toArray),
+        ("M", ratJ (magList db q.cat q.unit t xs ys))])]
+    | .error e => [("then", errJ e)]
+
 def handle (j : Json) : Except String Json := do
   let op ← getStr j "op"
   match op with
@@ -175,6 +207,65 @@ def handle (j : Json) : Except String Json := do
           | .error e => errJ e
         pure (Json.mkObj [("ok", Json.mkObj [("valid", valid), ("default", symJ c.defaultUnit),
           ("qtype", symJ c.qtype), ("then", thenJ)])])
+  | "valueless" =>
+    let (name, reg) ← registered j
+    let u ← getOptSym j "unit"
+    let thenTo ← getOptSym j "then_to"
+    let form ← getStr j "form"
+    match reg with
+    | .error e => pure (Json.mkObj [("err", .str e.name), ("at", .str "register")])
+    | .ok db =>
+      match db.catByName name with
+      | none => throw "registered category not found"
+      | some ci =>
+        let info := [("dvalue", ratJ ci.defaultValue), ("dunit", symJ ci.defaultUnit)]
+        if form == "scalar" || form == "fraction" then
+          match db.createDefault name u with
+          | .error e => pure (Json.mkObj ([("err", .str e.name)] ++ info))
+          | .ok (q, x) =>
+            let m := match u with
+              | none => absR x
+              | some t => magConv db name ci.defaultUnit t ci.defaultValue x
+            pure (Json.mkObj ([("ok", Json.mkObj (simpleJ q ++ [("x", ratJ x)])), ("M", ratJ m)] ++ info
+              ++ thenJ db q x thenTo))
+        else
+          let n ← if form == "fixed" then (do let d ← getInt j "dim"; pure d.toNat) else pure 0
+          match db.createDefaultList n name u with
+          | .error e => pure (Json.mkObj ([("err", .str e.name)] ++ info))
+          | .ok (q, xs) =>
+            pure (Json.mkObj ([("ok", Json.mkObj (simpleJ q ++ [("xs", Json.arr (xs.map ratJ).toArray)])),
+              ("M", ratJ 0)] ++ info ++ thenListJ db q xs thenTo))
+  | "regcopy" =>
+    -- a value in a unit of a freshly registered category (limits, non-zero default), copied/read in another unit
+    let (name, reg) ← registered j
+    let x ← getRat j "x"
+    let toU ← getSym j "to"
+    match reg with
+    | .error e => pure (Json.mkObj [("err", .str e.name), ("at", .str "register")])
+    | .ok db =>
+      match db.obtainQuantity (← getSym j "unit") (some name) with
+      | .error e => pure (Json.mkObj [("err", .str e.name), ("at", .str "source")])
+      | .ok q =>
+        match db.createCopy q x toU with
+        | .ok (q', y) => pure (Json.mkObj [("ok", Json.mkObj (simpleJ q' ++ [("x", ratJ y)])),
+            ("M", ratJ (magConv db q.cat q.unit toU x y))])
+        | .error e => pure (errJ e)
+  | "copyl" =>
+    let db ← dbOf (← getStr j "db")
+    let xs ← getRats j "xs"
+    let toU ← getSym j "to"
+    match db.obtainQuantity (← getSym j "unit") (some (← getSym j "cat")) with
+    | .error e => pure (Json.mkObj [("err", .str e.name), ("at", .str "source")])
+    | .ok q =>
+      match db.createCopyList q xs toU with
+      | .ok (q', ys) => pure (Json.mkObj [("ok", Json.mkObj (simpleJ q' ++ [("xs", Json.arr (ys.map ratJ).toArray)])),
+          ("M", ratJ (magList db q.cat q.unit toU xs ys))])
+      | .error e => pure (errJ e)
+  | "unitname" =>
+    let db ← dbOf (← getStr j "db")
+    match db.getUnitName (← getSym j "qt") (← getSym j "unit") with
+    | .ok n => pure (Json.mkObj [("ok", symJ n)])
+    | .error e => pure (errJ e)
   | _ => throw s!"unknown op {op}"
 
 def step (j : Json) : Json :=
